@@ -132,6 +132,23 @@ pub fn gen_state(r: &mut Rng, o: &GenOpts) -> PushState {
     for _ in 0..depth(r, rich) {
         s.float_vector_stack.push(FloatVector::new(gen_fvec(r, 4)));
     }
+    // ring-buffer HISTORY: in a third of the states the three buffers have already been used - messages / graphs were
+    // pushed and popped before - so that their read and write cursors stand anywhere in the ring (also on the last
+    // slot and wrapped past it) when the instruction under test runs
+    if r.chance(1, 3) {
+        for _ in 0..r.below(23) {
+            s.input_stack.push(PushMessage::new(IntVector::new(vec![]), BoolVector::new(vec![])));
+            s.input_stack.pop();
+        }
+        for _ in 0..r.below(8) {
+            s.output_stack.push(PushMessage::new(IntVector::new(vec![]), BoolVector::new(vec![])));
+            s.output_stack.pop();
+        }
+        for _ in 0..r.below(205) {
+            s.graph_stack.push(pushr::push::graph::Graph::new());
+            s.graph_stack.pop();
+        }
+    }
     // mostly a few queued messages; now and then the INPUT queue is filled to (and pushed beyond) its capacity of 10
     let n_in = if r.chance(1, 12) { 9 + r.below(3) } else { r.below(4) };
     for _ in 0..n_in {
